@@ -421,4 +421,81 @@ example : toQ (set_z 2 (-7)) = ((-7 : ℤ) : ℚ) :=
 example : set_si 2 (-5) = ⟨2, -1, 1, [5]⟩ := by decide
 example : set_ui 3 7 = ⟨3, 1, 1, [7]⟩ := by decide
 
+
+/-! ### mpf_set / mpf_neg / mpf_abs for operands of any length (truncation to prec+1 limbs) -/
+
+/-- mpf_set with an operand of any length: format rules; error < 2^(2−p)·|u|; exact if u fits in p bits. -/
+theorem mpf_set_spec (prec : ℕ) (hp : 1 ≤ prec) (u : F) (hu : OpWF u) :
+    WF (set prec u) ∧
+    (u.size ≠ 0 → |toQ (set prec u) - toQ u| < eps prec * |toQ u|) ∧
+    (Fits (toQ u) (PREC_TO_BITS prec) → toQ (set prec u) = toQ u) := set_spec prec hp u hu
+
+/-- mpf_neg into a different variable, operand of any length. -/
+theorem mpf_neg_spec (prec : ℕ) (hp : 1 ≤ prec) (u : F) (hu : OpWF u) :
+    WF (neg prec false u) ∧
+    (u.size ≠ 0 → |toQ (neg prec false u) - (- toQ u)| < eps prec * |toQ u|) ∧
+    (Fits (toQ u) (PREC_TO_BITS prec) → toQ (neg prec false u) = - toQ u) := by
+  obtain ⟨h1, h2, h3⟩ := set_spec prec hp _ (OpWF_neg_size u hu)
+  rw [neg_eq_set]
+  rw [toQ_neg_size u hu] at h2 h3
+  refine ⟨h1, fun h => ?_, fun hf => h3 (fits_neg hf)⟩
+  have := h2 (by simpa using h)
+  rwa [abs_neg] at this
+
+example : set 2 ⟨9, 4, 7, [1, 2, 3, 4]⟩ = ⟨2, 3, 7, [2, 3, 4]⟩ := by decide
+
+/-! ### mpf_add -/
+
+/-- mpf_add of two non-zero operands of the same sign (add.c:66-174): format rules and error bound, for all
+    precisions, lengths and exponent differences. -/
+theorem mpf_add_same_sign (prec : ℕ) (hp : 1 ≤ prec) (u v : F) (hu : OpWF u) (hv : OpWF v)
+    (hu0 : u.size ≠ 0) (hv0 : v.size ≠ 0) (hs : (u.size < 0) ↔ (v.size < 0)) (rIsU rIsV : Bool) :
+    WF (add prec rIsU rIsV u v) ∧
+    |toQ (add prec rIsU rIsV u v) - (toQ u + toQ v)| < eps prec * |toQ u + toQ v| := by
+  have : add prec rIsU rIsV u v = addSame prec u v := by
+    unfold add; rw [if_neg hu0, if_neg hv0]
+    have : ((decide (u.size < 0)) != (decide (v.size < 0))) = false := by
+      by_cases a : u.size < 0
+      · simp [a, hs.mp a]
+      · have b : ¬ v.size < 0 := fun h => a (hs.mpr h)
+        simp [a, b]
+    rw [this]; simp
+  rw [this]; exact addSame_spec prec hp u v hu hv hu0 hv0 hs
+
+/-- ... and the sum is exact when both operands and the exact sum fit in p bits. -/
+theorem mpf_add_same_sign_exact_if_fits (prec : ℕ) (hp : 1 ≤ prec) (u v : F) (hu : OpWF u) (hv : OpWF v)
+    (hu0 : u.size ≠ 0) (hv0 : v.size ≠ 0) (hs : (u.size < 0) ↔ (v.size < 0)) (rIsU rIsV : Bool)
+    (fu : Fits (toQ u) (PREC_TO_BITS prec)) (fv : Fits (toQ v) (PREC_TO_BITS prec))
+    (fe : Fits (toQ u + toQ v) (PREC_TO_BITS prec)) :
+    toQ (add prec rIsU rIsV u v) = toQ u + toQ v := by
+  have : add prec rIsU rIsV u v = addSame prec u v := by
+    unfold add; rw [if_neg hu0, if_neg hv0]
+    have : ((decide (u.size < 0)) != (decide (v.size < 0))) = false := by
+      by_cases a : u.size < 0
+      · simp [a, hs.mp a]
+      · have b : ¬ v.size < 0 := fun h => a (hs.mpr h)
+        simp [a, b]
+    rw [this]; simp
+  rw [this]; exact addSame_exact prec hp u v hu hv hu0 hv0 hs fu fv fe
+
+/-- mpf_add with a zero operand, result in a distinct variable: the other operand is copied (mpf_set). -/
+theorem mpf_add_zero (prec : ℕ) (hp : 1 ≤ prec) (u v : F) (hu : OpWF u) (hv : OpWF v) (hz : u.size = 0 ∨ v.size = 0) :
+    WF (add prec false false u v) ∧
+    (toQ u + toQ v ≠ 0 → |toQ (add prec false false u v) - (toQ u + toQ v)| < eps prec * |toQ u + toQ v|) ∧
+    (Fits (toQ u + toQ v) (PREC_TO_BITS prec) → toQ (add prec false false u v) = toQ u + toQ v) := by
+  by_cases hu0 : u.size = 0
+  · have : add prec false false u v = set prec v := by unfold add; rw [if_pos hu0]; rfl
+    rw [this, toQ_of_size_zero (hu.d_nil hu0), zero_add]
+    obtain ⟨h1, h2, h3⟩ := set_spec prec hp v hv
+    refine ⟨h1, fun h => h2 (fun hv0 => h (toQ_of_size_zero (hv.d_nil hv0))), h3⟩
+  · have hv0 : v.size = 0 := hz.resolve_left hu0
+    have : add prec false false u v = set prec u := by unfold add; rw [if_neg hu0, if_pos hv0]; rfl
+    rw [this, toQ_of_size_zero (hv.d_nil hv0), add_zero]
+    obtain ⟨h1, h2, h3⟩ := set_spec prec hp u hu
+    exact ⟨h1, fun _ => h2 hu0, h3⟩
+
+-- non-vacuity: partial overlap with a carry out of the top limb; v below the window is dropped
+example : add 2 false false ⟨2, 2, 1, [B - 1, B - 1]⟩ ⟨2, 1, 0, [1]⟩ = ⟨2, 3, 2, [0, 0, 1]⟩ := by decide
+example : add 2 false false ⟨2, 2, 5, [7, 9]⟩ ⟨2, 1, 3, [4]⟩ = ⟨2, 2, 5, [7, 9]⟩ := by decide
+
 end Mpir.Mpf
